@@ -141,6 +141,17 @@ def compile_and_instrument(job, staged, workdir, log):
         if rc != 0:
             raise ToolError('goto-cc', (err or '')[-3000:] if rc is not None else 'timeout')
         job._shared_entry = True
+        rfp = getattr(job, 'restrict_fp', None)
+        if rfp:
+            # goto-instrument guards each restriction with an assertion ("dereferenced function pointer must be ...")
+            rgb = base + '.rfp.gb'
+            cmd = ['goto-instrument']
+            for r in rfp:
+                cmd += ['--restrict-function-pointer', r]
+            rc2, out2, err2, t2 = sh(cmd + [sgb, rgb], 300, log)
+            if rc2 != 0:
+                raise ToolError('goto-instrument --restrict-function-pointer', ((out2 or '') + (err2 or ''))[-2000:] if rc2 is not None else 'timeout')
+            return rgb, err or ''
         return sgb, err or ''
     rc, out, err, t = sh(['goto-cc', '--function', job.entry, staged, '-o', gb], 300, log)
     if rc != 0:
